@@ -75,7 +75,7 @@ CheckPersist(r) ==
   /\ PrintT(<<"INFO", l, r.id, "persist", 0, 0>>)
 
 \* a whole session in one directory, followed with CliFs!FsAfter from the abstract initial directory
-InitFs == [n \in {"a.adf", "b.adf", "note.txt"} |-> IF n = "note.txt" THEN <<"junk">> ELSE <<"adf", n>>]
+InitFs(r) == [n \in DOMAIN r.init |-> IF n \in {"a.adf", "b.adf"} THEN <<"adf", n>> ELSE <<"junk">>]
 RECURSIVE FsWalk(_, _, _, _)
 FsWalk(r, i, mfs, prev) ==
   IF i > Len(r.steps) THEN TRUE
@@ -91,8 +91,8 @@ FsWalk(r, i, mfs, prev) ==
        \* model conformance (drift only): the directory after the invocation is the model's; unreadable sources are refused
        /\ ((DOMAIN s.fs = DOMAIN after /\ (Readable(mfs, run) \/ s.exit # 0)) \/ PrintT(<<"DRIFT", l, r.id, <<"directory-after-invocation", i>> >>))
        /\ FsWalk(r, i + 1, after, s.fs)
-CheckFs(r) == /\ Report(DOMAIN r.init = DOMAIN InitFs, r.id, "C14", "session-setup")
-              /\ FsWalk(r, 1, InitFs, r.init)
+CheckFs(r) == /\ Report({"a.adf", "b.adf", "note.txt"} \subseteq DOMAIN r.init, r.id, "C14", "session-setup")
+              /\ FsWalk(r, 1, InitFs(r), r.init)
               /\ PrintT(<<"INFO", l, r.id, "fs-session", Len(r.steps), 0>>)
 
 Init2 == l = 1
